@@ -350,7 +350,7 @@ theorem gen_estimate_answers_valid_of_pair (nx : Nx) (g : GM (LogOf K))
   have key : ∀ c ∈ (gmOf nx g).cliques, ∀ σ, g.domain.Valid σ →
       (((bpO nx g p).get c).sem σ).v = g.total.v * marginal g.domain p c σ / partition g.domain p :=
     fun c hc σ hσ =>
-      (gen_exact_inference_end_to_end nx g.domain g.inCliques (modeOf g.elim) g.total hd hne hin hadm p hpots hZ c hc σ hσ).2
+      (gen_exact_inference_anyTotal nx g.domain g.inCliques (modeOf g.elim) g.total hd hne hin hadm p hpots hZ c hc σ hσ).2
   refine ⟨key, fun hT c hc σ hσ => ?_, fun hsizes c hc => ?_, fun c1 hc1 c2 hc2 A hA1 hA2 σ hσ => ?_⟩
   · rw [key c hc σ hσ]
     exact div_nonneg (mul_nonneg hT (Bd.marginal_nonneg _ _ _ _ hpots.nonneg)) (Bd.partition_nonneg _ _ hpots.nonneg)
